@@ -133,6 +133,28 @@ ROUND5 = {
 for _i, _t in ROUND5.items():
     lvl, tech, text, note, ref = CHECKS[_i]
     CHECKS[_i] = (lvl, tech, text + _t, note, ref)
+# additions of the sixth round
+ROUND6 = {
+ "C02": " The dictionary of the prelude writes one key twice.",
+ "C03": " A comment line of every spelling (also empty) or a white-space-only line is put in front of every line of every section program, statement tree of <= 2 nodes and nested chain: the tree stays the same.",
+ "C07": " The constructor of the second type hands the object to a global holder that is observed with the names.",
+ "C08": " A form creates an object whose constructor stores it in a global holder, changes it through the name it was bound to and reads it through the holder.",
+ "C09": " 抛出 also names the exception type through a variable that holds it.",
+ "C10": " The String receivers include a text with stray bytes (as a file in another encoding delivers it); 42 programs store, copy, compare, show and serialise collections holding objects that point at each other.",
+ "C11": " Two drivers whose imports both fail are executed 40 times each (goroutine scheduling is not controlled: this is repetition, not enumeration).",
+ "C12": " Guarded writes and reads at fractional positions (0.5, 1.5, -0.5).",
+ "C13": " Every end-to-end literal is also evaluated as the first of two list items.",
+ "C14": " The text argument of the template sub-check itself spells placeholders.",
+ "C15": " Directed scenarios cover the order in which imports are carried out and definitions nested in methods of imported modules.",
+ "C16": " Two requests in different directories read a relative path.",
+ "C17": " Programs of every size within 8 bytes of 1 MiB (and 64 KiB, 256 KiB, 2 MiB, 4 MiB) run through LoadFile like their decoded text.",
+ "C18": " Contexts include an empty 注： comment; fault kinds include a method that the object's type does not have; the loop template closes a body statement with ；.",
+ "C19": " The empty document and blank documents are among the corruptions.",
+ "C20": " Real-worker scenarios include a request that starts a helper program which inherits the worker's output files and outlives it.",
+}
+for _i, _t in ROUND6.items():
+    lvl, tech, text, note, ref = CHECKS[_i]
+    CHECKS[_i] = (lvl, tech, text + _t, note, ref)
 checks = []
 na = []
 for p in props:
